@@ -318,7 +318,7 @@ fn run_sequence(seq: &[Act], after: bool, ids: &mut HashSet<usize>) -> Result<(S
 }
 
 fn c18(args: &Args, report: &Arc<Mutex<Report>>, wd: &Watchdog) {
-    let max_len = args.extra_u64("len", if args.thorough() { 7 } else { 6 }) as usize;
+    let max_len = args.extra_u64("len", if args.thorough() { 8 } else { 6 }) as usize;
     let mut ids: HashSet<usize> = HashSet::new();
     // shard the exhaustive enumeration by the first action(s)
     let mut total = 0u64;
